@@ -145,7 +145,7 @@ def finish(rep, level="other", explanation="", exhaustive=None):
             seen_known.append((v, kmap[kk]))
         else:
             new.append(v)
-    vdir = os.path.join(VERIF, "evidence", "violations")
+    vdir = os.path.join(extract.EVIDENCE, "violations")
     os.makedirs(vdir, exist_ok=True)
     for f in os.listdir(vdir):
         if f.startswith(rep.prop + "-"):
@@ -201,8 +201,8 @@ def finish(rep, level="other", explanation="", exhaustive=None):
         "wall_s": round(time.time() - rep.t0, 2),
         "violations": len(new),
     }
-    os.makedirs(os.path.join(VERIF, "evidence"), exist_ok=True)
-    json.dump(ev, open(os.path.join(VERIF, "evidence", rep.prop + ".json"), "w"), indent=1)
+    os.makedirs(extract.EVIDENCE, exist_ok=True)
+    json.dump(ev, open(os.path.join(extract.EVIDENCE, rep.prop + ".json"), "w"), indent=1)
     print("[%s] %d rule instances checked by %d rules, %d hold, %d known findings, %d new violations (%.1fs)" % (
         rep.prop, obligations, len(rep.rules), discharged, len(seen_known), len(new), time.time() - rep.t0))
     return 1 if new else 0
